@@ -96,7 +96,7 @@ type CleanObs struct {
 }
 
 type Op struct {
-	K string `json:"k"` // "src" | "rules" | "tamper" | "touchout" | "advance" | "build"
+	K string `json:"k"` // "src" | "rules" | "tamper" | "touchout" | "advance" | "newbuilder" | "build"
 
 	Name    string `json:"name,omitempty"`
 	Stat    *Stat  `json:"stat,omitempty"` // nil: delete
@@ -124,8 +124,16 @@ type SrcFile struct {
 }
 
 type Case struct {
-	I      int       `json:"i"`
-	Stream string    `json:"stream"`
+	I      int    `json:"i"`
+	Stream string `json:"stream"`
+	// Builder is how the history's Build calls are issued: "fresh" = a new
+	// caco3.Builder for every build (what caco3bin does: one per process),
+	// "one" = one long-lived Builder per configuration for the whole history
+	// (a daemon or a test that keeps the Builder), renewed only by a
+	// "newbuilder" operation.  Everything a Builder holds across Build calls
+	// (env.workspace, env.nodeType/ruleType, and - if the code ever kept it -
+	// the buildContext with its memo and cache handle) lives as long as that.
+	Builder string    `json:"builder"`
 	Pkgs   []string  `json:"pkgs"`
 	Rules  []Rule    `json:"rules"`
 	Src    []SrcFile `json:"src"`
@@ -328,16 +336,42 @@ var cacheNow = time.Unix(1700000000, 0)
 // chmodCount numbers the output chmods of a history.
 var chmodCount uint32
 
-func realBuild(root string, targets []string, always bool) (ok bool, errText string, exec []string) {
+// builders holds the long-lived Builders of a history run in the "one"
+// style: one per configuration (AlwaysRebuild is a Config field).
+type builders struct {
+	keep bool
+	m    map[bool]*caco3.Builder
+}
+
+func (bs *builders) reset() { bs.m = map[bool]*caco3.Builder{} }
+
+func (bs *builders) get(root string, always bool) (*caco3.Builder, string) {
+	if bs != nil && bs.keep {
+		if b := bs.m[always]; b != nil {
+			return b, ""
+		}
+	}
+	b, err := caco3.NewBuilder(root, &caco3.Config{Root: root, AlwaysRebuild: always})
+	if err != nil {
+		return nil, "new builder: " + err.Error()
+	}
+	if _, errs := b.ReadWorkspace(); errs != nil {
+		return nil, "workspace: " + errs[0].Error()
+	}
+	if bs != nil && bs.keep {
+		bs.m[always] = b
+	}
+	return b, ""
+}
+
+// realBuild issues one Build call; bs == nil: on a Builder of its own.
+func realBuild(bs *builders, root string, targets []string, always bool) (ok bool, errText string, exec []string) {
 	logBuf.Reset()
 	exec = []string{}
 	caco3.VerifCacheClock = func() time.Time { return cacheNow }
-	b, err := caco3.NewBuilder(root, &caco3.Config{Root: root, AlwaysRebuild: always})
-	if err != nil {
-		return false, "new builder: " + err.Error(), exec
-	}
-	if _, errs := b.ReadWorkspace(); errs != nil {
-		return false, "workspace: " + errs[0].Error(), exec
+	b, msg := bs.get(root, always)
+	if b == nil {
+		return false, msg, exec
 	}
 	errs := b.Build(targets)
 	for _, line := range strings.Split(logBuf.String(), "\n") {
@@ -415,9 +449,13 @@ func runCase(c *Case, withClean bool) {
 	if err := writeBuildFiles(root, c.Pkgs, c.Rules); err != nil {
 		fatal("build files", err)
 	}
+	bs := &builders{keep: c.Builder == "one"}
+	bs.reset()
 	for i := range c.Ops {
 		op := &c.Ops[i]
 		switch op.K {
+		case "newbuilder":
+			bs.reset()
 		case "src":
 			f := filepath.Join(root, "src", filepath.FromSlash(op.Name))
 			if op.Stat == nil {
@@ -478,7 +516,7 @@ func runCase(c *Case, withClean bool) {
 		case "build":
 			o := &BuildObs{}
 			waitTick(root)
-			o.Ok, o.Err, o.Exec = realBuild(root, op.Targets, op.Always)
+			o.Ok, o.Err, o.Exec = realBuild(bs, root, op.Targets, op.Always)
 			o.Outs = snapshotOut(root)
 			if withClean {
 				// implementation-only oracle: a from-scratch build of a copy
@@ -490,7 +528,7 @@ func runCase(c *Case, withClean bool) {
 					fatal("copy", err)
 				}
 				co := &CleanObs{}
-				co.Ok, co.Err, co.Exec = realBuild(croot, op.Targets, false)
+				co.Ok, co.Err, co.Exec = realBuild(nil, croot, op.Targets, false)
 				co.Outs = snapshotOut(croot)
 				os.RemoveAll(croot)
 				o.Clean = co
